@@ -736,6 +736,8 @@ func builtinIntrinsics() map[string]Intrinsic {
 		}
 		return r
 	}
+	four := func(m *Machine, fn *ssa.Function, a []Value) Value { return m.ctx.BV(4, 64) }
+	I["github.com/apache/skywalking-banyandb/pkg/cgroups.CPUs"], I["runtime.NumCPU"], I["runtime.GOMAXPROCS"] = four, four, four
 	I["os.Getenv"] = func(m *Machine, fn *ssa.Function, a []Value) Value { return "" }
 	I["os.LookupEnv"] = func(m *Machine, fn *ssa.Function, a []Value) Value { return TupleV{"", m.ctx.False} }
 	return I
